@@ -320,6 +320,9 @@ def _sp(ctx, room_below=4):
         a = lo + room_below
     elif k < 0.4:
         a = hi + 1 - 4
+    elif k < 0.55:
+        # a push that borrows out of bit 15 / a pop that carries into bit 16: stack pointers at 64 KiB boundaries of DRAM
+        a = r.choice([0x410000, 0x420000, 0x500000, 0x5f0000, 0x410002, 0x40fffe, 0x4ffffc, 0x500004])
     else:
         a = r.randrange(lo + room_below, hi - 3)
     a &= ~1
